@@ -32,3 +32,12 @@ def make_formatter(fmt=None, datefmt=None):
 
 def make_formatter_kw(fmt=None, datefmt=None, **options):
     return KwFormatter(fmt, datefmt)
+
+
+class StrictFormatter(logging.Formatter):
+    """(fmt, datefmt) only, and it CHECKS the format the way the standard
+    library does for %-style: a format text written for another style is
+    refused by this class (ValueError) when the formatter is built."""
+
+    def __init__(self, fmt=None, datefmt=None):
+        logging.Formatter.__init__(self, fmt, datefmt)
